@@ -11,6 +11,11 @@
      faultcall <call> <arg> <file> <k> <fail|short> <n>
                                           -> same for any call (createwrite / editwrite <data>:
                                              Create resp. Edit, then Write(data), then Close)
+     locktab <n> (g:<E|S>:<ofd>:<ino> | u:<ofd>:<ino>)*n
+                                          -> ok <grants> | reject <index> <conflicting holders>
+                                             (can_grant / drop of the model's flock table)
+     mutexfacts                           -> lockpanic <msg>|lockruns -  atpanic <msg>|atok -
+     mutexstring <path>                   -> <hex of Mutex.String()>
      spec <call> <arg> <reg>              -> <outcome> <new reg>   (call_spec: the sequential
                                              specification used by the linearisability theorem)
    <outcome> = ok | err | data:<hex> | blocked
@@ -88,6 +93,33 @@ let () = serve (function
       (match global_index tr0 (int_of_string k) with
        | None -> show (run_call c no_faults file)
        | Some g -> show (run_call c (fault_at (nat_of_int g) flt) file))
+  | "locktab" :: _ :: toks ->
+      (* replay of an observed flock history through the model's lock table *)
+      let tab : (int, (nat * lkind) list) Hashtbl.t = Hashtbl.create 16 in
+      let get i = try Hashtbl.find tab i with Not_found -> [] in
+      let rec go idx grants = function
+        | [] -> "ok " ^ string_of_int grants
+        | tok :: rest ->
+            (match String.split_on_char ':' tok with
+             | ["g"; k; c; i] ->
+                 let k = if k = "E" then LEx else LSh in
+                 let c = nat_of_int (int_of_string c) and i = int_of_string i in
+                 if can_grant k c (get i) then begin
+                   Hashtbl.replace tab i ((c, k) :: drop c (get i)); go (idx + 1) (grants + 1) rest
+                 end else
+                   "reject " ^ string_of_int idx ^
+                   String.concat "" (List.map (fun (d, k') ->
+                     " description:" ^ string_of_int (int_of_nat d) ^ (match k' with LEx -> ":LOCK_EX" | LSh -> ":LOCK_SH"))
+                     (List.filter (fun (d, _) -> d <> c) (get i)))
+             | ["u"; c; i] ->
+                 let c = nat_of_int (int_of_string c) and i = int_of_string i in
+                 Hashtbl.replace tab i (drop c (get i)); go (idx + 1) grants rest
+             | _ -> "ERR bad token " ^ tok) in
+      go 0 0 toks
+  | ["mutexfacts"] ->
+      (match mutex_lock [] with MPanic m -> "lockpanic " ^ hex_of_bytes m | MRun _ -> "lockruns -") ^ " " ^
+      (match mutex_at [] with Inr m -> "atpanic " ^ hex_of_bytes m | Inl _ -> "atok -")
+  | ["mutexstring"; p] -> hex_of_bytes (mutex_string (bytes_of_hex p))
   | ["spec"; name; arg; reg] ->
       let c = call_of name arg in
       let (r, b) = call_spec (flags_of_call c) (body_of_call c) (bytes_of_hex reg) in
